@@ -207,12 +207,14 @@ Fixpoint lmb_inner (fuel : nat) (s : settings) (additive : bool) (lo hi x : list
 
 (* which dimensions are in play: the two-condition release, then, if that leaves the free dimensions converged while the
    cost can still be reduced from a bound, the release on the sign of the gradient alone *)
-Definition in_play (s : settings) (additive : bool) (bs : list Z) (nbound : Z) (g : list T) (h : list (list T)) (diag_scaling damping : T)
+Definition in_play (s : settings) (additive : bool) (held : option nat) (bs : list Z) (nbound : Z) (g : list T) (h : list (list T)) (diag_scaling damping : T)
   : list Z * list nat * T :=
   let bs1 := if 0 <? nbound then
                let mh := if additive then map_diag (fun v => oadd O v (omul O damping diag_scaling)) h
                          else map_diag (fun v => omul O v (oadd O (o1 O) damping)) h in
-               release2 bs g (vneg (solve mh g))
+               let rel := release2 bs g (vneg (solve mh g)) in
+               (* a variable that met its bound in the last step is not released straight away *)
+               match held with Some i => set_nth i (nth i bs 0) rel | None => rel end
              else bs in
   let ifree1 := find (fun b => b =? 0) bs1 in
   let gn1 := gnorm_free ifree1 g in
@@ -222,7 +224,7 @@ Definition in_play (s : settings) (additive : bool) (bs : list Z) (nbound : Z) (
     (bs2, ifree2, gnorm_free ifree2 g)
   else (bs1, ifree1, gn1).
 
-Fixpoint lmb_outer (fo fi : nat) (s : settings) (additive : bool) (lo hi x : list T) (bs : list Z) (nbound : Z) (damping : T) (it samples : Z)
+Fixpoint lmb_outer (fo fi : nat) (s : settings) (additive : bool) (lo hi x : list T) (held : option nat) (bs : list Z) (nbound : Z) (damping : T) (it samples : Z)
          (start_cost gn : T) (log : list event) : result :=
   match fo with 0%nat => mkResult MOutOfFuel x (o0 O) start_cost gn it samples bs [] log | S fo' =>
     let cf := cost x in let g := grad x in let h := hess x in
@@ -234,7 +236,7 @@ Fixpoint lmb_outer (fo fi : nat) (s : settings) (additive : bool) (lo hi x : lis
     if negb (isfinite cf) then stop MInvalidCost gn bs log1 2
     else if existsb (fun v => negb (isfinite v)) g then stop MInvalidGradient gn bs log1 2
     else
-      let '(bs1, ifree, gn1) := in_play s additive bs nbound g h diag_scaling damping in
+      let '(bs1, ifree, gn1) := in_play s additive held bs nbound g h diag_scaling damping in
       let nbound1 := count_bound bs1 in
       let log2 := log1 ++ [EvProgress it x cf gn1] in
       if oleb O gn1 (thr s) then stop MSuccess gn1 bs1 log2 2
@@ -249,7 +251,7 @@ Fixpoint lmb_outer (fo fi : nat) (s : settings) (additive : bool) (lo hi x : lis
           let d' := lower_damping s d in
           if zge it' (max_it s) then
             let '(c, lg') := refresh s (-1) nx' nc lg in mkResult MMaxIterations nx' c start_cost1 gn1 it' smp bs2 g lg'
-          else lmb_outer fo' fi s additive lo hi nx' bs2 nbound1 d' it' smp start_cost1 gn1 lg
+          else lmb_outer fo' fi s additive lo hi nx' (if bt =? 0 then None else Some (nth ib ifree 0%nat)) bs2 nbound1 d' it' smp start_cost1 gn1 lg
         end
   end.
 
@@ -260,5 +262,5 @@ Definition lm_bounded (fo fi : nat) (s : settings) (additive : bool) (lo hi x : 
   if negb (valid_bounds lo hi x) then mkResult MInvalidBounds x inf (o0 O) minus_one 0 0 [] [] []
   else
     let bs := initial_bs lo hi x in
-    lmb_outer fo fi s additive lo hi (clamp lo hi x) bs (count_bound bs) (d_start s) 0 0 (o0 O) minus_one [].
+    lmb_outer fo fi s additive lo hi (clamp lo hi x) None bs (count_bound bs) (d_start s) 0 0 (o0 O) minus_one [].
 End Minim.
